@@ -1,7 +1,312 @@
 //! Driver-side (Lean) and harness-side (Rust) dispatch tables for translated functions.
+//! One entry per translated function whose parameters and result are "wire" types;
+//! both sides are generated from the same index so the ids always match.
+use crate::ctx::lean_ident;
 use crate::index::*;
 use crate::Translated;
 use std::collections::BTreeMap;
 use std::path::Path;
 
-pub fn emit(_idx: &Index, _ok: &BTreeMap<String, Translated>, _out: &Path, _harness: Option<&Path>) {}
+fn rust_int(k: &IntK) -> &'static str {
+    match k {
+        IntK::U64 => "u64",
+        IntK::I64 | IntK::Isize => "i64",
+        IntK::Usize => "usize",
+        IntK::I32 => "i32",
+        IntK::U32 => "u32",
+        IntK::U8 => "u8",
+        IntK::Unk => "i64",
+    }
+}
+
+/// parameter wire type: (lean pattern ctor, lean expr from var, rust expr from arg i, sig code)
+fn param_wire(idx: &Index, t: &Ty, i: usize, by_ref: bool) -> Option<(String, String, String, String)> {
+    let v = format!("a{}", i);
+    Some(match t {
+        Ty::F64 => (format!("Arg.f {}", v), v.clone(), format!("a[{}].f()", i), "f".into()),
+        Ty::Int(k) => (format!("Arg.i {}", v), v.clone(), format!("a[{}].i() as {}", i, rust_int(k)), format!("i:{}", rust_int(k))),
+        Ty::Bool => (format!("Arg.b {}", v), v.clone(), format!("a[{}].b()", i), "b".into()),
+        Ty::List(e) => match &**e {
+            Ty::F64 => (format!("Arg.fl {}", v), v.clone(), format!("{}a[{}].fl()", if by_ref { "&" } else { "" }, i), "F".into()),
+            Ty::Int(k) => (
+                format!("Arg.il {}", v),
+                v.clone(),
+                format!("{}a[{}].il().iter().map(|x| *x as {}).collect::<Vec<_>>()", if by_ref { "&" } else { "" }, i, rust_int(k)),
+                format!("I:{}", rust_int(k)),
+            ),
+            _ => return None,
+        },
+        Ty::Enum(n) => {
+            let e = idx.enums.get(n)?;
+            if e.payloads.iter().any(|p| p.is_some()) {
+                return None;
+            }
+            let path = pub_path_type(idx, n)?;
+            let lean_arms: Vec<String> = e.variants.iter().enumerate().map(|(j, vn)| format!("| {} => {}.{}", j, n, lean_ident(vn))).collect();
+            let rust_arms: Vec<String> = e.variants.iter().enumerate().map(|(j, vn)| format!("{} => {}::{},", j, path, vn)).collect();
+            (
+                format!("Arg.i {}", v),
+                format!("(match {} with {} | _ => {}.{})", v, lean_arms.join(" "), n, lean_ident(&e.variants[0])),
+                format!("match a[{}].i() {{ {} _ => {}::{} }}", i, rust_arms.join(" "), path, e.variants[0]),
+                format!("e:{}", e.variants.len()),
+            )
+        }
+        Ty::Opt(inner) => match &**inner {
+            // Option<usize> / Option<f64> / Option<&[f64]> as (flag, value) is not needed often: encode as list (empty = None)
+            Ty::Int(k) => (
+                format!("Arg.il {}", v),
+                format!("(List.head? {})", v),
+                format!("a[{}].il().first().map(|x| *x as {})", i, rust_int(k)),
+                format!("OI:{}", rust_int(k)),
+            ),
+            Ty::F64 => (format!("Arg.fl {}", v), format!("(List.head? {})", v), format!("a[{}].fl().first().copied()", i), "OF".into()),
+            _ => return None,
+        },
+        _ => return None,
+    })
+}
+
+fn ret_ok(idx: &Index, t: &Ty) -> bool {
+    match t {
+        Ty::F64 | Ty::Int(_) | Ty::Bool | Ty::Unit => true,
+        Ty::Opt(a) | Ty::List(a) => ret_ok(idx, a),
+        Ty::Res(a, e) => ret_ok(idx, a) && matches!(&**e, Ty::Enum(_)),
+        Ty::Tuple(v) => v.iter().all(|x| ret_ok(idx, x)),
+        Ty::Struct(_) => true, // rendered opaquely as "struct"
+        Ty::Enum(n) => idx.enums.get(n).map(|e| e.plain).unwrap_or(false),
+        _ => false,
+    }
+}
+
+pub fn pub_path_type(idx: &Index, name: &str) -> Option<String> {
+    let m = if let Some(s) = idx.structs.get(name) { &s.module } else { &idx.enums.get(name)?.module };
+    let m: Vec<&str> = m.iter().map(|s| s.as_str()).collect();
+    Some(match m.as_slice() {
+        ["crate", "distribution", ..] => format!("statrs::distribution::{}", name),
+        ["crate", "statistics", ..] => format!("statrs::statistics::{}", name),
+        ["crate", "stats_tests"] => format!("statrs::stats_tests::{}", name),
+        ["crate", "stats_tests", sub] => format!("statrs::stats_tests::{}::{}", sub, name),
+        ["crate", "function", sub] => format!("statrs::function::{}::{}", sub, name),
+        ["crate", top] => format!("statrs::{}::{}", top, name),
+        _ => return None,
+    })
+}
+
+fn pub_path_fn(fi: &FnInfo) -> Option<String> {
+    if !fi.is_pub {
+        return None;
+    }
+    let m: Vec<&str> = fi.module.iter().map(|s| s.as_str()).collect();
+    Some(match m.as_slice() {
+        ["crate", "function", sub] => format!("statrs::function::{}::{}", sub, fi.name),
+        ["crate", "stats_tests", sub] => format!("statrs::stats_tests::{}::{}", sub, fi.name),
+        ["crate", top] if *top != "distribution" && *top != "statistics" => format!("statrs::{}::{}", top, fi.name),
+        _ => return None,
+    })
+}
+
+fn is_ref_param(fi: &FnInfo, i: usize, src_sig: &BTreeMap<String, Vec<bool>>) -> bool {
+    src_sig.get(&fi.key).and_then(|v| v.get(i)).copied().unwrap_or(false)
+}
+
+pub fn emit(idx: &Index, ok: &BTreeMap<String, Translated>, out: &Path, harness: Option<&Path>) {
+    let mut lean = String::new();
+    let mut rust = String::new();
+    let mut sigs: Vec<serde_json::Value> = vec![];
+    lean.push_str("-- GENERATED by rs2lean — do not edit\nimport Statrs.Driver.Proto\nimport Statrs.Gen.SFFloat\nimport Statrs.Gen.All\nset_option maxRecDepth 8192\nnamespace Statrs.Gen.Dispatch\nopen Statrs Statrs.Gen Statrs.Driver\n\n");
+    rust.push_str("// GENERATED by rs2lean — do not edit\n#![allow(unused_imports, unused_variables, clippy::all)]\nuse crate::proto::*;\nuse statrs::distribution::*;\nuse statrs::statistics::*;\n\npub fn dispatch(id: &str, a: &[Arg]) -> Option<String> {\n    Some(match id {\n");
+    for st in idx.structs.values() {
+        if !st.supported {
+            continue;
+        }
+        let t = if st.has_float { format!("({} Float)", st.name) } else { st.name.clone() };
+        lean.push_str(&format!("instance : ToReply {} := ⟨fun _ => \"struct\"⟩\n", t));
+    }
+    for e in idx.enums.values() {
+        if e.plain && !e.variants.is_empty() && e.payloads.iter().all(|p| p.as_ref().map(|t| matches!(t, Ty::Enum(_))).unwrap_or(true)) {
+            lean.push_str(&format!("instance : ToReply {} := ⟨fun e => variantStr e⟩\n", e.name));
+        }
+    }
+    lean.push('\n');
+    // which params are references in the source (needed to pass `&` for slices): all List params are passed by ref
+    let src_sig: BTreeMap<String, Vec<bool>> = BTreeMap::new();
+    let mut names: Vec<(String, String)> = vec![];
+    let mut n = 0usize;
+    for (k, _t) in ok {
+        let fi = match idx.fns.get(k) {
+            Some(f) => f,
+            None => continue,
+        };
+        if !ret_ok(idx, &fi.ret) {
+            continue;
+        }
+        // receiver
+        let mut pats: Vec<String> = vec![];
+        let mut lean_args: Vec<String> = vec![];
+        let mut rust_args: Vec<String> = vec![];
+        let mut sig: Vec<String> = vec![];
+        let mut ai = 0usize;
+        let mut lean_pre = String::new();
+        let mut lean_post = String::new();
+        let mut rust_pre = String::new();
+        let rust_call: String;
+        let mut ctor_sig: Vec<String> = vec![];
+        let mut good = true;
+        if fi.self_kind != SelfKind::None {
+            let sty = fi.self_ty.clone().unwrap();
+            if idx.structs.contains_key(&sty) {
+                let ck = format!("{}::new", sty);
+                let ctor = match idx.fns.get(&ck) {
+                    Some(c) if ok.contains_key(&ck) && c.is_pub => c,
+                    _ => continue,
+                };
+                let tpath = match pub_path_type(idx, &sty) {
+                    Some(p) => p,
+                    None => continue,
+                };
+                let mut cl = vec![];
+                let mut cr = vec![];
+                for (pi, (_, pt)) in ctor.params.iter().enumerate() {
+                    match param_wire(idx, pt, ai, ctor.param_ref.get(pi).copied().unwrap_or(0) == 1) {
+                        Some((p, l, r, s)) => {
+                            pats.push(p);
+                            cl.push(l);
+                            cr.push(r);
+                            ctor_sig.push(s);
+                        }
+                        None => good = false,
+                    }
+                    ai += 1;
+                }
+                if !good {
+                    continue;
+                }
+                match &ctor.ret {
+                    Ty::Res(_, _) => {
+                        lean_pre = format!("match {}.new (α := Float) {} with\n    | .error e => ctorErr (variantStr e)\n    | .ok d => ", sty, cl.join(" "));
+                        rust_pre = format!("let d = match {}::new({}) {{ Ok(d) => d, Err(e) => return Some(ctor_err(&e)) }}; ", tpath, cr.join(", "));
+                    }
+                    Ty::Struct(_) => {
+                        lean_pre = format!("let d := {}.new (α := Float) {}\n    ", sty, cl.join(" "));
+                        rust_pre = format!("let d = {}::new({}); ", tpath, cr.join(", "));
+                    }
+                    _ => continue,
+                }
+                let _ = &mut lean_post;
+                lean_args.push("d".into());
+            } else if ["f64", "i64", "u64", "i32", "u32"].contains(&sty.as_str()) {
+                // method on a primitive (euclid::Modulus)
+                let st = fi.tybind.get("Self").cloned().unwrap();
+                match param_wire(idx, &st, ai, false) {
+                    Some((p, l, r, s)) => {
+                        pats.push(p);
+                        lean_args.push(l);
+                        rust_pre = format!("use statrs::euclid::Modulus; let d = {}; ", r);
+                        ctor_sig.push(s);
+                    }
+                    None => continue,
+                }
+                ai += 1;
+            } else {
+                continue;
+            }
+        }
+        for (pi, (_, pt)) in fi.params.iter().enumerate() {
+            match param_wire(idx, pt, ai, fi.param_ref.get(pi).copied().unwrap_or(0) == 1) {
+                Some((p, l, r, s)) => {
+                    pats.push(p);
+                    lean_args.push(l);
+                    rust_args.push(r);
+                    sig.push(s);
+                }
+                None => good = false,
+            }
+            ai += 1;
+        }
+        if !good {
+            continue;
+        }
+        let _ = is_ref_param(fi, 0, &src_sig);
+        if fi.self_kind != SelfKind::None {
+            rust_call = format!("d.{}({})", fi.name, rust_args.join(", "));
+        } else if let Some(st) = &fi.self_ty {
+            // associated function without receiver (new, standard, ...)
+            let tpath = match pub_path_type(idx, st) {
+                Some(p) => p,
+                None => continue,
+            };
+            if !fi.is_pub {
+                continue;
+            }
+            rust_call = format!("{}::{}({})", tpath, fi.name, rust_args.join(", "));
+        } else {
+            match pub_path_fn(fi) {
+                Some(p) => rust_call = format!("{}({})", p, rust_args.join(", ")),
+                None => continue,
+            }
+        }
+        if fi.trait_name.is_none() && fi.self_kind != SelfKind::None && !fi.is_pub {
+            continue; // private inherent method
+        }
+        n += 1;
+        let dn = format!("d{}", n);
+        let id = k.clone();
+        lean.push_str(&format!(
+            "def {} : List Arg → String\n  | [{}] =>\n    {}reply ({} (α := Float) {})\n  | _ => \"bad-args\"\n\n",
+            dn,
+            pats.join(", "),
+            lean_pre,
+            fi.lean_name,
+            lean_args.join(" ")
+        ));
+        names.push((id.clone(), dn));
+        rust.push_str(&format!("        {:?} => {{ if a.len() != {} {{ return Some(\"bad-args\".into()); }} {}rep(&({})) }}\n", id, ai, rust_pre, rust_call));
+        sigs.push(serde_json::json!({"id": id, "ctor": ctor_sig, "params": sig, "self": fi.self_ty, "method": fi.name,
+            "file": fi.file, "ret": format!("{:?}", fi.ret)}));
+    }
+    let mut tabs = vec![];
+    for (ci, chunk) in names.chunks(40).enumerate() {
+        lean.push_str(&format!("def table{} : List (String × (List Arg → String)) := [\n", ci));
+        let rows: Vec<String> = chunk.iter().map(|(id, dn)| format!("  ({:?}, {})", id, dn)).collect();
+        lean.push_str(&rows.join(",\n"));
+        lean.push_str("]\n\n");
+        tabs.push(format!("table{}", ci));
+    }
+    lean.push_str(&format!("def table : List (String × (List Arg → String)) :=\n  {}\n\nend Statrs.Gen.Dispatch\n", tabs.join(" ++ ")));
+    rust.push_str("        _ => return None,\n    })\n}\n\n");
+    for st in idx.structs.values() {
+        if st.supported {
+            if let Some(p) = pub_path_type(idx, &st.name) {
+                if p.starts_with("statrs::distribution::") || p.starts_with("statrs::generate::") {
+                    rust.push_str(&format!("struct_rep!({});\n", p));
+                }
+            }
+        }
+    }
+    let mut ret_enums: std::collections::BTreeSet<String> = Default::default();
+    fn collect_enums(t: &Ty, out: &mut std::collections::BTreeSet<String>) {
+        match t {
+            Ty::Enum(n) => {
+                out.insert(n.clone());
+            }
+            Ty::Opt(a) | Ty::List(a) => collect_enums(a, out),
+            Ty::Res(a, _) => collect_enums(a, out),
+            Ty::Tuple(v) => v.iter().for_each(|x| collect_enums(x, out)),
+            _ => {}
+        }
+    }
+    for s in &sigs {
+        let id = s["id"].as_str().unwrap();
+        collect_enums(&idx.fns[id].ret, &mut ret_enums);
+    }
+    for e in ret_enums {
+        if let Some(p) = pub_path_type(idx, &e) {
+            rust.push_str(&format!("enum_rep!({});\n", p));
+        }
+    }
+    crate::write_if_changed_pub(&out.join("Dispatch.lean"), &lean);
+    crate::write_if_changed_pub(&out.join("signatures.json"), &serde_json::to_string_pretty(&sigs).unwrap());
+    if let Some(h) = harness {
+        crate::write_if_changed_pub(h, &rust);
+    }
+}
